@@ -19,3 +19,12 @@ _add(PropertySpec(
     assumptions=["bit operations on non-negative integers: x & 1 = x mod 2, x >> 1 = x div 2, 1 << k = 2**k, a | 2**k = a + 2**k when bit k of a is clear (each use generates the side obligation)"],
     not_decided=[],
 ))
+
+DP = "superrec2.utils.dynamic_programming"
+_add(PropertySpec(
+    "C16", files=["subsequences", "dynamic_programming"],
+    targets=[f"{DP}:Entry.__init__@policies", f"{DP}:Entry.__init__@values", f"{DP}:Entry.value", f"{DP}:Entry.infos",
+             f"{DP}:Entry.is_infinite", f"{DP}:Entry.update"],
+    level="proof",
+    technique="contract-based deductive verification: sidecar contracts + loop invariants on the real AST, VCs discharged by z3/cvc5",
+))
